@@ -3,7 +3,7 @@
 One simulated run = a history of generator invocations on one scratch tree:
     PLACE(...)* / RUN(M', env, fault)* / RUN_OTHER(plugin', ...)*  then  RUN(M, env)+ (fault-free)
 Oracle: after every final RUN(M, env) the plugin exits 0 and its owned files are byte-identical to
-a clean-room reference run Ref(P, M) (empty directory, hash seed 0, real uuid4, real listing order);
+a clean-room reference run Ref(P, M) (empty directory, hash seed 0, constant uuid stream, real listing order);
 no simulated uuid string occurs in any owned file.
 """
 from __future__ import annotations
@@ -340,7 +340,7 @@ def execute(h: Dict[str, Any]) -> Dict[str, Any]:
         w.destroy()
     return {"run_seed": h["run_seed"], "violations": viol, "harness": None, "probes": probes, "faults_fired": faults_fired,
             "invocations": inv, "digest": core.digest([h["plugin"], h["model"], evlog]), "plugin": plugin, "evlog": evlog,
-            "nontrivial": bool(h["ops"]) or any(e.get("uuid_seed") is not None or e.get("hashseed") != "0" for e in h["finals"])}
+            "nontrivial": bool(h["ops"]) or any(e.get("hashseed") != "0" or e.get("ls_seed") is not None or e.get("locale") for e in h["finals"])}
 
 
 def gm_leak(ref_main: Optional[bytes], td: pathlib.Path, ids: set) -> bool:
@@ -385,7 +385,7 @@ def minimise(h: Dict[str, Any], sig: str) -> Tuple[Dict[str, Any], Dict[str, Any
     # fewer final runs, default environments
     for cand_fn in (
         lambda c: c.update(finals=c["finals"][:1]),
-        lambda c: c.update(finals=[{"hashseed": "0", "uuid_seed": None, "ls_seed": None, "locale": None}] * len(c["finals"])),
+        lambda c: c.update(finals=[{"hashseed": "0", "uuid_seed": 2, "ls_seed": None, "locale": None}] * len(c["finals"])),
         lambda c: c.update(test_dir=False),
         lambda c: c["model"].pop("split", None),
         lambda c: c["model"].pop("compact", None),
@@ -418,7 +418,7 @@ def minimise(h: Dict[str, Any], sig: str) -> Tuple[Dict[str, Any], Dict[str, Any
                 if simpl == "nofault":
                     c["ops"][i][3] = None
                 elif simpl == "defenv":
-                    c["ops"][i][2] = {"hashseed": "0", "uuid_seed": None, "ls_seed": None, "locale": None}
+                    c["ops"][i][2] = {"hashseed": "0", "uuid_seed": 2, "ls_seed": None, "locale": None}
                 else:
                     c["ops"][i][1] = copy.deepcopy(c["model"])
                 if c != best:
